@@ -66,7 +66,7 @@ class Alphabet:
 
     def ref_point(self, name, measurement=None, now=None):
         t, m, tags, fields = self.points[name]
-        if measurement:
+        if measurement is not None:
             m = measurement
         return (refmodel.norm_time(t, now), m, dict(tags), dict(fields))
 
